@@ -288,7 +288,30 @@ def compile_level(ctx):
         if ps:
             # .notdef must keep its name (a CFF charset starts with .notdef; renaming it is a user error)
             desc["lib"]["public.postscriptNames"] = {k: v for k, v in ps.items() if k in names and v and k != ".notdef"}
+        import re as _re2
+        if i % 4 == 1:
+            for k, nm in enumerate(("swapA", "swapB", "swapC")):
+                if nm not in names:
+                    glyphs.append({"name": nm, "width": 510 + k, "unicodes": [], "contours": [[(0, 0, "line"), (60 + 9 * k, 0, "line"), (30, 70 + k, "line")]]})
+                    names.append(nm)
+        if i % 4 == 3 and "A" not in names:
+            glyphs.append({"name": "A", "width": 520, "unicodes": [0x41], "contours": [[(0, 0, "line"), (66, 0, "line"), (33, 80, "line")]]})
+            names.append("A")
+        plain = [n for n in ("swapA", "swapB", "swapC") if n in names]
+        if i % 4 == 1 and len(plain) >= 3:
+            # renames that CROSS: two glyphs swap their names, a third takes the old name of the first of a chain -- a rename
+            # that is not done all at once hands one glyph's drawing to another
+            desc["lib"]["public.postscriptNames"] = {plain[0]: plain[1], plain[1]: plain[0], plain[2]: plain[2] + ".x"}
+            ctx.klass("bytes: crossing renames (swap)")
+        elif i % 4 == 3 and "A" in names and "uni0041" not in names:
+            # a glyph LITERALLY named like the generated name of an earlier one
+            glyphs.append({"name": "uni0041", "width": 500, "unicodes": [], "contours": [[(0, 0, "line"), (77, 0, "line"), (30, 90, "line")]]})
+            names.append("uni0041")
+            ctx.klass("bytes: literal uniXXXX name after the glyph that generates it")
         flavor, kw = [("ttf", {}), ("otf", {"cffVersion": 1}), ("otf", {"cffVersion": 2})][i % 3]
+        if i % 4 in (1, 3):
+            # (the crossing-rename and literal-name cases: CFF first, then CFF2, then TrueType)
+            flavor, kw = [("otf", {"cffVersion": 1}), ("otf", {"cffVersion": 2}), ("ttf", {})][(i // 4) % 3]
         comp = ufo2ft.compileTTF if flavor == "ttf" else ufo2ft.compileOTF
         case = {"font": jsonable(desc), "flavor": flavor, "options": kw}
         try:
@@ -332,6 +355,21 @@ def compile_level(ctx):
                 a, b = a[:8] + b"\0\0\0\0" + a[12:], b[:8] + b"\0\0\0\0" + b[12:]
             if a != b:
                 ctx.spec_failure(case, "table %r differs between useProductionNames=True and False" % tag)
+        # the glyph-name carriers hold the OUTLINES of a CFF / CFF2 font too: glyph k draws the same with names on and off
+        if "glyf" not in on and on.getGlyphOrder() and len(on.getGlyphOrder()) == len(off.getGlyphOrder()) and "" not in on.getGlyphOrder():
+            from fontTools.pens.recordingPen import RecordingPen
+            gs_on, gs_off = on.getGlyphSet(), off.getGlyphSet()
+            for k, (n_on, n_off) in enumerate(zip(on.getGlyphOrder(), off.getGlyphOrder())):
+                p1, p0 = RecordingPen(), RecordingPen()
+                try:
+                    gs_on[n_on].draw(p1); gs_off[n_off].draw(p0)
+                except Exception as e:
+                    ctx.spec_failure(dict(case, glyph_index=k), "glyph #%d cannot be drawn (%s: %s)" % (k, type(e).__name__, e))
+                    break
+                if p1.value != p0.value or gs_on[n_on].width != gs_off[n_off].width:
+                    ctx.spec_failure(dict(case, glyph_index=k, name_on=n_on, name_off=n_off),
+                                     "glyph #%d (%r, named %r with production names) draws differently with production names on" % (k, n_off, n_on))
+                    break
         final = on.getGlyphOrder()
         if len(set(final)) != len(final):
             ctx.spec_failure(case, "final glyph names are not unique: %r" % final)
